@@ -1,5 +1,5 @@
 (* C05 — property theorems only. Each is closed by `exact` of a lemma proved in Proofs/ (or a vm_compute witness). *)
-From JV Require Import Lib.Base Lib.Regex Model.TyVal Model.Scalar Model.Ty Model.TyLoader Model.C05Channels
+From JV Require Import Lib.Base Lib.Regex Model.TyVal Model.Scalar Model.Ty Model.TyLoader Model.C05Channels Model.C05History
   Proofs.C05Proofs Proofs.C05JsonYaml Gen.C01Resolvers.
 
 (* The input channels differ only in whether a text or a loaded value enters the type check, in how often the
@@ -50,6 +50,16 @@ Theorem C05_json_scalars_in_yaml :
   model_yload [110;117;108;108]%N = LVal VNone.
 Proof. exact json_scalars_in_yaml. Qed.
 Print Assumptions C05_json_scalars_in_yaml.
+
+(* What an earlier call can leave behind for the channels of a later one is the ContextVar previous_config, which
+   parse_string / parse_path read: after ANY history of parse_args calls — accepted, rejected by an option, rejected
+   while a --cfg value was being applied — it is what it was before (None at top level), so parse_string and
+   parse_path keep answering like parse_object, options and --cfg.  The try/finally of previous_config_context is
+   what this rests on (`nofinally_leaks` in Proofs/C05Proofs.v: without it [option; rejected --cfg] leaves Some 1). *)
+Theorem C05_history_independent :
+  forall (calls : list (list pitem)) (s : pstate), state_after s calls = s.
+Proof. exact history_independent. Qed.
+Print Assumptions C05_history_independent.
 
 (* the hypotheses are satisfiable by non-trivial inputs *)
 Example C05_guard_satisfiable : guard (chk as_is ex_yl) (TList TInt) ex_text ex_val = true.
